@@ -178,16 +178,24 @@ def gen_interp2d(ctx):
         do_interp2d(ctx, x, xf, f, exact, 'dyadic' if exact else 'random')
     ctx.flush()
     # LARGE problems (queries x nodes beyond 10^5, 10^6): clamping outside the table, nodes and midpoints behave as for small tables
-    for nq, nn in ([(1000, 300)] if ctx.tier == 'quick' else [(1000, 300), (4000, 300), (300, 4000), (120, 1000)]) + \
+    for entry in ([(1000, 300)] if ctx.tier == 'quick' else [(1000, 300), (4000, 300), (300, 4000), (120, 1000)]) + \
             [(k, 300) for k in gen.hint_sizes(ctx, lo=13, hi=6000, cap=3)] + [(300, k) for k in gen.hint_sizes(ctx, lo=13, hi=6000, cap=3)] + \
-            [(c // 300 + 1, 300) for c in gen.hint_sizes(ctx, lo=10000, hi=1500000, cap=2)]:      # source hints: queries, nodes, queries x nodes around every new integer constant
+            [(c // 300 + 1, 300, g) for c in gen.hint_sizes(ctx, lo=10000, hi=1500000, cap=2) for g in ('irregular', 'regular', 'nearly regular')]:      # source hints: queries, nodes, queries x nodes around every new integer constant (every grid kind)
+        # node grids: irregular dyadic gaps (exact), exactly regular, and NEARLY regular (gaps within a few parts per million of their mean: clock
+        # drift) — a bracket computed arithmetically from the mean spacing is wrong only on the last kind, for queries next to a node
+        nq, nn = entry[0], entry[1]
+        grid = entry[2] if len(entry) > 2 else rng.choice(['irregular', 'irregular', 'regular', 'nearly regular', 'nearly regular'])
         xf = [0.0]
         for _ in range(nn - 1):
-            xf.append(xf[-1] + rng.choice([0.25, 0.5, 1.0]))
+            xf.append(xf[-1] + (rng.choice([0.25, 0.5, 1.0]) if grid == 'irregular' else (0.5 if grid == 'regular' else 0.5 * (1 + rng.uniform(-6e-6, 6e-6)))))
         f = [[rng.randint(-64, 64) / 8 for _ in range(2)] for _ in range(nn)]
         x = []
         for _ in range(nq):
             c = rng.random()
+            if grid == 'nearly regular' and c < 0.6:
+                i = rng.randrange(nn)
+                x.append(xf[i] + rng.choice([-1, 1]) * rng.choice([1e-7, 1e-6, 3e-6, 1e-5]) * rng.random())      # in the sliver next to a node
+                continue
             if c < 0.1:
                 x.append(xf[0] - rng.choice([0.125, 1, 50]))
             elif c < 0.2:
@@ -197,7 +205,7 @@ def gen_interp2d(ctx):
             else:
                 i = rng.randrange(nn - 1)
                 x.append(xf[i] + (xf[i + 1] - xf[i]) * rng.randint(0, 16) / 16)
-        do_interp2d(ctx, x, xf, f, True, 'large')
+        do_interp2d(ctx, x, xf, f, grid != 'nearly regular', 'large/' + grid)
     ctx.flush()
 
 
